@@ -374,16 +374,19 @@ def fp_drpcmanager_manager_Manager_manageReader : List String :=
     "=curr", "call:m.sbuf.Get", "case", "&&", "!=", "==", "call:curr.ID", "call:drpcdebug.Event", 
     "s:rd.deliver", "if", "=err", "call:curr.HandlePacket", "!=", "call:m.terminate", "call:managerClosed.Wrap", 
     "return", "case", "&&", "!=", "<", "call:curr.ID", "call:drpcdebug.Event", "s:rd.drop", "case", 
-    "||", "==", "==", "if", "&&", "!=", "u!", "call:curr.IsTerminated", "call:curr.Cancel", "call:drpcdebug.Event", 
-    "s:rd.queue", "select", "send", "call:m.pdone.Recv", "u<-", "call:m.sigs.term.Signal", "return", 
-    "default", "if", "&&", "!=", "u!", "call:curr.IsTerminated", "call:curr.Cancel", "call:drpcdebug.Event", 
+    "||", "==", "==", "if", "&&", "!=", "u!", "call:curr.IsTerminated", "call:curr.Cancel", "if", 
+    "==", "=invoked", "call:drpcdebug.Event", "s:rd.queue", "select", "send", "call:m.pdone.Recv", 
+    "u<-", "call:m.sigs.term.Signal", "return", "default", "if", "&&", "!=", "u!", "call:curr.IsTerminated", 
+    "call:curr.Cancel", "if", "!=", "call:drpcdebug.Event", "s:rd.orphan", "break", "call:drpcdebug.Event", 
     "s:rd.wait", "if", "u!", "call:m.sbuf.Wait", "call:curr.ID", "return", "goto"]
 def fp_drpcmanager_manager_Manager_newStream : List String :=
   ["=opts", "call:drpcopts.SetStreamKind", "u&", "call:drpcopts.SetStreamRPC", "u&", "if", "=cb", 
     "call:drpcopts.GetManagerStatsCB", "u&", "!=", "call:drpcopts.SetStreamStats", "u&", "call:cb", 
-    "=stream", "call:drpcstream.NewWithOptions", "select", "send", "call:drpcdebug.Event", "s:stream.new.begin", 
-    "call:m.sbuf.Set", "call:drpcdebug.Event", "s:stream.new.end", "call:m.log", "s:STREAM", "return", 
-    "u<-", "call:m.sigs.term.Signal", "return", "call:m.sigs.term.Err"]
+    "=stream", "call:drpcstream.NewWithOptions", "call:drpcdebug.Event", "s:stream.new.begin", 
+    "call:m.sbuf.Set", "call:drpcdebug.Event", "s:stream.new.end", "call:drpcdebug.Event", "s:stream.new.offer", 
+    "select", "send", "call:drpcdebug.Point", "s:manager.newStream.handoff", "call:m.log", "s:STREAM", 
+    "return", "u<-", "call:m.sigs.term.Signal", "call:drpcdebug.Event", "s:stream.new.retract", 
+    "return", "call:m.sigs.term.Err"]
 def fp_drpcmanager_manager_Manager_manageStreams : List String :=
   ["defer", "call:m.sigs.stream.Set", "for", "select", "=si", "u<-", "call:m.manageStream", "u<-", 
     "call:m.sigs.term.Signal", "return"]
